@@ -37,6 +37,11 @@ class Boom(Exception):
         return (Boom, (self.label,))
 
 
+class ChildKilled(BaseException):
+    """Raised inside a virtual worker (E3) at the instant it is killed; vmp discards everything
+    the unwinding produces afterwards (a SIGKILL runs no finally clause)."""
+
+
 class World:
     """Ground-truth recorder shared by harness, tasks and runners."""
 
@@ -56,6 +61,8 @@ class World:
         self.emit = emit or {}                # label -> emit pattern (C19)
         self.on_run = on_run                  # optional callback(task) inside run()
         self.child = None                     # index of the virtual child executing (E3)
+        self.kill_labels = frozenset()        # labels whose virtual worker is killed at the start of run() (E3)
+        self.kill_hook = lambda: None
         self.record_env = bool(os.environ.get('VERIF_RECORD_ENV'))
         self.die = frozenset()                # labels whose run() kills its own process (real backends only)
 
@@ -169,6 +176,9 @@ def _record_env(self, k):
 def _run(self):
     k = tkey(self)
     WORLD.rec('start', k)
+    if WORLD.child is not None and self.label in WORLD.kill_labels:
+        WORLD.kill_hook()
+        raise ChildKilled()
     if WORLD.record_env:
         _record_env(self, k)
     bd = os.environ.get('VERIF_BARRIER_DIR')
